@@ -133,13 +133,16 @@ def check_ambiguity(lowered):
 
 def settle_pending(dsk, pending, get):
     """Execute the task spelling of each pending key; its value must equal the data spelling."""
-    from sim.fingerprint import fingerprint
+    from sim.fingerprint import obs_equal, observe
 
     for k, data, task in pending:
         g = dict(dsk)
         g[k] = task
         val = get(g, k)
-        if fingerprint(val) != fingerprint(data):
+        # same rows, labels and schema; row order inside a (disk-)shuffled partition may legitimately differ between
+        # the run that produced the imported data and this one
+        same, _ = obs_equal(observe(data, labels=True, order=False), observe(val, labels=True, order=False))
+        if not same:
             raise S.GraphDefect("ambiguous_key", "%s: imported data differs from the value its defining task computes" % S.keystr(k))
     return len(pending)
 
